@@ -90,6 +90,31 @@ fn apply<T: Val>(s: &mut Stack<T>, op: &Tree) -> Option<Tree> {
             let mut it = std::iter::from_fn(move || src.next());
             unit(s.try_extend(&mut it))
         }
+        17 => {
+            // the trait's slice entry point
+            let v = vs(o.get(1)?)?;
+            unit(s.try_extend_from_slice(&v))
+        }
+        18 => {
+            // an iterator that is NOT fused: it yields the first list, then None, and when asked again goes on with the second
+            let (v1, v2) = (vs(o.get(1)?)?, vs(o.get(2)?)?);
+            let mut phase = 0;
+            let (mut i1, mut i2) = (v1.into_iter(), v2.into_iter());
+            let mut it = std::iter::from_fn(move || {
+                if phase == 0 {
+                    match i1.next() {
+                        Some(x) => Some(x),
+                        None => {
+                            phase = 1;
+                            None
+                        }
+                    }
+                } else {
+                    i2.next()
+                }
+            });
+            unit(s.try_extend(&mut it))
+        }
         16 => {
             // an exact-size iterator of a huge claimed length (nothing is allocated up front); only valid where
             // it cannot fit, so a correct push_many answers Overflow without drawing a single element
@@ -174,9 +199,18 @@ fn gen_hist(rng: &mut Sm, kind: i64, maxlen: usize) -> Tree {
                 let n = rng.below(5);
                 tl![A(9), L((0..n).map(|_| fresh(rng)).collect())]
             }
-            79..=81 => {
+            79..=80 => {
                 let n = rng.below(5);
                 tl![A(15), L((0..n).map(|_| fresh(rng)).collect())]
+            }
+            81 => {
+                let n = rng.below(5);
+                if rng.chance(1, 2) {
+                    tl![A(17), L((0..n).map(|_| fresh(rng)).collect())]
+                } else {
+                    let m = rng.below(3);
+                    tl![A(18), L((0..n).map(|_| fresh(rng)).collect()), L((0..m).map(|_| fresh(rng)).collect())]
+                }
             }
             82 => {
                 if capped {
@@ -206,7 +240,7 @@ fn gen_hist(rng: &mut Sm, kind: i64, maxlen: usize) -> Tree {
 }
 
 fn exhaustive(g: &mut Gen, depth: usize) {
-    // all histories of length <= depth over an 11-operation alphabet, capacity 0..=2
+    // all histories of length <= depth over a 13-operation alphabet, capacity 0..=2
     let alphabet: Vec<Tree> = vec![
         tl![A(0), A(7)],
         tl![A(1)],
@@ -219,6 +253,8 @@ fn exhaustive(g: &mut Gen, depth: usize) {
         tl![A(13)],
         tl![A(15), L(vec![A(3), A(4)])],
         tl![A(3)],
+        tl![A(17), L(vec![A(5), A(6)])],
+        tl![A(18), L(vec![A(4)]), L(vec![A(2)])],
     ];
     for cap in 0..=2i64 {
         let mut stack: Vec<Vec<usize>> = vec![vec![]];
